@@ -141,6 +141,9 @@ func cmdCheck(args []string) int {
 			reached[k] += v
 		}
 		for _, v := range r.Viols {
+			if spec.Labels != nil && !spec.Labels(v.Label) {
+				continue // belongs to another property decided by the same harness
+			}
 			viols = append(viols, v)
 			violJobs = append(violJobs, r.Job)
 		}
